@@ -143,9 +143,10 @@ def layout_case(ctx, double, nt, nx, nta, alpha_mode=False):
 VAR_OF = {"gamma_var": "gamma", "df_var": "df", "db_var": "db", "alpha_var": "alpha", "c_var": "c", "dalpha_var": "dalpha"}
 
 
-def roundtrip_case(ctx, c):
-    desc = calib.case_desc(c)
-    out, _ = calib.run_real(c)
+def roundtrip_case(ctx, c, opts=None):
+    opts = opts or {}
+    desc = calib.case_desc(c, opts)
+    out, _ = calib.run_real(c, **opts)
     if isinstance(out, tuple):
         ctx.skip("wls run refused (not this property)")
         return
@@ -175,9 +176,9 @@ def roundtrip_case(ctx, c):
                 dev = None if b is None or a.shape != b.shape else float(np.nanmax(np.abs(a - b)))
                 ctx.fail(f"external round trip does not reproduce `{k}` identically (max abs deviation {dev})", desc)
                 break
-    ctx.case(sig=["roundtrip", c.double, c.nx, c.nt, nta, len(c.matching)], nontrivial=True,
+    ctx.case(sig=["roundtrip", c.double, c.nx, c.nt, nta, len(c.matching), sorted(opts)], nontrivial=True,
              sample=dict(op="roundtrip", **desc))
-    ctx.count("roundtrip:" + ("double" if c.double else "single"))
+    ctx.count("roundtrip:" + ("double" if c.double else "single") + (":" + "+".join(sorted(opts)) if opts else ""))
 
 
 def run(ctx):
@@ -193,7 +194,17 @@ def run(ctx):
         double = ctx.rng.random() < 0.5
         c = fibre.make_case(ctx.rng, double=double, nx=ctx.rng.randint(10, 30), nt=ctx.rng.randint(1, 4), n_baths=2,
                             nta=ctx.rng.choice([0, 1, 2]), n_match=ctx.rng.choice([0, 1]), noise=0.01)
-        roundtrip_case(ctx, c)
+        # parameters fixed with a NON-ZERO variance: the supplied variance must sit on the diagonal of p_cov like any other
+        opts = {}
+        r = ctx.rng.random()
+        if r < 0.3:
+            opts["fix_gamma"] = (float(c.truth["gamma"]), ctx.rng.choice([0.04, 1.0]))
+        elif r < 0.55 and not double:
+            opts["fix_dalpha"] = (float(c.truth["dalpha"]), ctx.rng.choice([1e-12, 1e-10]))
+        elif r < 0.65 and not double:
+            opts["fix_gamma"] = (float(c.truth["gamma"]), 0.25)
+            opts["fix_dalpha"] = (float(c.truth["dalpha"]), 1e-11)
+        roundtrip_case(ctx, c, opts)
 
 
 def search(ctx):
